@@ -43,6 +43,15 @@ def run(report, db, tier):
     aliases(report, db)
     alias_sites(report, db)
     records(report, db, S)
+    from .. import shared
+    R7 = report.rule('R20.7', 'tracker objects share no state: no mutable '
+                     'default argument value is kept or changed')
+    mods = (PLIST, MAP, PPL, TUTIL, MUTIL, ENUM)
+    nd = shared.shared_defaults(
+        report, R7, db, [f for f in db.funcs if f.module.name in mods],
+        'two trackers (two maps, two records) made with the default then '
+        'hold the same object, and a packet applied to one changes the other')
+    report.floor('default values in the tracker modules', nd, 8)
 
 
 # ---------------------------------------------------------------------------
